@@ -467,7 +467,7 @@ func c14Setup(t *testing.T, rec *kit.Rec, ci int) *c14World {
 	for _, n := range names {
 		must(os.WriteFile(filepath.Join(w.src, n), rng.Bytes(rng.Range(100, 30000)), 0o644))
 	}
-	must(os.WriteFile(filepath.Join(w.src, "sub/big0.bin"), rng.Bytes(rng.Range(900000, 1500000)), 0o644))
+	must(os.WriteFile(filepath.Join(w.src, "sub/big0.bin"), rng.Bytes(rng.Range(600000, 900000)), 0o644))
 	if err := e.Init(uint(1 + ci%2)); err != nil {
 		rec.Inconclusive("world %d: init failed: %v", ci, err)
 		return nil
@@ -487,9 +487,9 @@ func c14Setup(t *testing.T, rec *kit.Rec, ci int) *c14World {
 	must(os.Remove(filepath.Join(w.src, "b.txt")))
 	must(os.MkdirAll(filepath.Join(w.src, "new"), 0o755))
 	must(os.WriteFile(filepath.Join(w.src, "new/h.dat"), rng.Bytes(5000), 0o644))
-	for i := 0; i < 3; i++ {
-		must(os.WriteFile(filepath.Join(w.src, fmt.Sprintf("new/big%d.bin", i)), rng.Bytes(rng.Range(1800000, 2600000)), 0o644))
-	}
+	// new data: multi-chunk files; kept small because every schedule re-runs this backup
+	must(os.WriteFile(filepath.Join(w.src, "new/big0.bin"), rng.Bytes(rng.Range(1100000, 1500000)), 0o644))
+	must(os.WriteFile(filepath.Join(w.src, "new/big1.bin"), rng.Bytes(rng.Range(200000, 400000)), 0o644))
 	w.big = "new/big0.bin"
 	w.B, w.sizeB = c14Scan(w.src)
 	return w
@@ -699,12 +699,14 @@ func TestVerifC14(t *testing.T) {
 				// the column k=1 completely: the writer has written nothing yet and does ALL its work while
 				// the reader is held before its j-th operation (the widest window for "listed but not
 				// indexed"); plus corners and a PRNG sample of the rest of the grid
-				for j := 1; j <= J+1; j++ {
+				// (every second j, the phase chosen by the seed, so that seeds complement each other)
+				for j := 1 + int(env.Seed%2); j <= J+1; j += 2 {
 					add(jk{j, 1})
 				}
+				add(jk{J + 1, 1})
 				add(jk{1, K})
 				add(jk{J + 1, K})
-				for n := len(grid) + 8; len(grid) < n; {
+				for n := len(grid) + 6; len(grid) < n; {
 					add(jk{rng.Range(1, J+1), rng.Range(2, K+1)})
 				}
 			}
